@@ -344,7 +344,9 @@ def proof_leg(run, prop_file, proof_files, trusted_extra=()):
     tb += list(trusted_extra)
     mine = set([prop_file] + [f for f in proof_files])
     # a property is affected by a failed file only if it depends on it (declared files + gen/)
-    relevant = [f for f in failed if f in mine or f.startswith("gen/") or f in ("<make>", "_CoqProject")]
+    # a generated file (coq/gen/*.v) affects only the properties that declare it: a table left behind by a run of
+    # another property's check on a different tree must not alarm everybody
+    relevant = [f for f in failed if f in mine or f in ("<make>", "_CoqProject")]
     missing = [f for f in mine if not os.path.exists(os.path.join(COQ, f + "o"))]
     if relevant or missing:
         failed = sorted(set(relevant + missing))
